@@ -743,7 +743,8 @@ func (u *Unit) evalSpecCall(env *SpecEnv, c *ECall) Value {
 		// bit pattern of a float64 as an integer (only in `floats bits` mode, where it is the value itself)
 		a := arg(0)
 		if u.W.FM != FloatBits {
-			u.specErr("bits() needs `floats bits`")
+			// outside `floats bits` the bit pattern is an opaque function of the value
+			return Value{T: u.W.UF("fbits", []string{"Float"}, "Int", a.T), Ty: types.Typ[types.Uint64]}
 		}
 		return Value{T: Leaf(a.T.String(), "Int"), Ty: types.Typ[types.Uint64]}
 	case "isnan":
